@@ -13,7 +13,7 @@
 (* A program P (JSON, produced by the MC instances, rendered to Rust by     *)
 (* gen/) is                                                                 *)
 (*  [kind: [async,try,spawn], carrier: "res"|"opt", caller: "named"|..,     *)
-(*   branches: Seq([name, init: "expr"|"block", iid, steps: Seq(Seq(Item))]),*)
+(*   branches: Seq([name, init: "expr"|"block"|"thunk", iid, steps: ..]),   *)
 (*   handler: "none"|"map"|"and_then"|"then", hform, hid, hpos,             *)
 (*   opts: [joiner: "none"|"eager"|"lazy"|"try", lazy, transpose, path]]    *)
 (*  Item = [id, op, form: "closure"|"block"|"call", reads: Seq(branch)]     *)
@@ -74,7 +74,7 @@ Invoked(P, op, v) ==
   CASE op \in {"and_then", "filter"} -> v.ok
     [] op = "map"                    -> IF IsAsync(P) THEN TRUE ELSE v.ok
     [] op \in {"or_else", "map_err"} -> ~v.ok
-    [] op \in {"then", "dot", "inspect", "job"} -> TRUE
+    [] op \in {"then", "dot", "inspect", "job", "force"} -> TRUE
     [] OTHER -> FALSE
 
 Fresh(b, id) == [ok |-> TRUE, b |-> b, n |-> 0, last |-> id]
@@ -181,6 +181,10 @@ StartPc0(s, b) ==
          THEN [i |-> 0, ph |-> "g", v |-> InitV(P, s.plan, b)]
          ELSE Norm(s, b, 1, "o", InitV(P, s.plan, b)))
      ELSE IF B.init = "expr" THEN [i |-> 0, ph |-> "i", v |-> NoV]
+     \* a branch whose initial expression is a closure literal (`move || f()`): creating it evaluates nothing; the value of
+     \* the step is the closure itself (also when the branch is handed over lazily: the wrapper closure returns it), and the
+     \* operator "force" of a later step (`~-> call`) is what runs it
+     ELSE IF B.init = "thunk" THEN Norm(s, b, 1, "o", NoV)
      ELSE Norm(s, b, 1, "o", InitV(P, s.plan, b))
   ELSE Norm(s, b, 1, "o", s.val[b])
 
@@ -198,7 +202,8 @@ BranchEvent(s, b) ==
   CASE p.ph = "y" -> {E("opnd", Early(P, b, s.k)[p.i], b, NoV, <<>>)}
     [] p.ph = "i" -> {E("init", id, b, NoV, <<>>)}
     [] p.ph = "o" -> {E("opnd", id, b, NoV, <<>>)}
-    [] p.ph = "e" -> {E("enter", id, b, p.v, <<>>)}
+    [] p.ph = "e" -> IF ItemAt(s, b).op = "force" THEN {E("init", P.branches[b + 1].iid, b, NoV, <<>>)}
+                     ELSE {E("enter", id, b, p.v, <<>>)}
     [] p.ph = "g" -> {E("arrive", id, b, NoV, <<>>)}
     [] p.ph = "w" -> {}
     [] p.ph = "x" ->
@@ -440,7 +445,7 @@ ApplyBranch(s0, e) ==
   CASE e.ev = "init" ->
          LET pk == PanicKeyFor(s, e) IN
          IF pk # "" THEN [s EXCEPT !.pp = pk, !.pb = b]
-         ELSE SetPc(s, b, Norm(s, b, 1, "o", InitV(P, s.plan, b)))
+         ELSE SetPc(s, b, Norm(s, b, p.i + 1, "o", InitV(P, s.plan, b)))
     [] e.ev = "opnd" ->
          LET pk == PanicKeyFor(s, e)  it == ItemAt(s, b) IN
          IF pk # "" THEN [s EXCEPT !.pp = pk, !.pb = b]
